@@ -1,5 +1,7 @@
 use crate::engine::{DynProp, Erased};
 
+pub mod c01;
+pub mod c02;
 pub mod c08;
 pub mod c09;
 pub mod c10;
@@ -8,6 +10,8 @@ pub mod lzcommon;
 
 pub fn registry() -> Vec<Box<dyn DynProp>> {
     vec![
+        Box::new(Erased::<c01::C01>::new()),
+        Box::new(Erased::<c02::C02>::new()),
         Box::new(Erased::<c08::C08>::new()),
         Box::new(Erased::<c09::C09>::new()),
         Box::new(Erased::<c10::C10>::new()),
